@@ -435,7 +435,17 @@ func joinNames(aName, bName string, aNames, bNames []string) []string {
 			ret = append(ret, name)
 		}
 	}
-	return ret
+	// Keep every name once: the list is part of the identity of the context-specific
+	// copies of called templates (mangle) and must not grow in a recursion.
+	seen := make(map[string]bool, len(ret))
+	uniq := ret[:0]
+	for _, name := range ret {
+		if !seen[name] {
+			seen[name] = true
+			uniq = append(uniq, name)
+		}
+	}
+	return uniq
 }
 
 // escapeBranch escapes a branch template node: "if", "range" and "with".
